@@ -254,7 +254,9 @@ wild.zone.tld. 300 IN TXT \"wild base\"\n\
 sub.wild.zone.tld. 300 IN TXT \"blocks the wildcard below it\"\n\
 x.ent.zone.tld. 300 IN A 192.0.2.7\n\
 deep.a.b.zone.tld. 300 IN A 192.0.2.8\n\
-mx.zone.tld. 300 IN MX 10 www.zone.tld.\n";
+mx.zone.tld. 300 IN MX 10 www.zone.tld.\n\
+dn.zone.tld. 300 IN DNAME dt.zone.tld.\n\
+x.dt.zone.tld. 300 IN A 192.0.2.33\n";
     let unsigned_text = "unsigned.tld. 3600 IN SOA ns.unsigned.tld. admin.unsigned.tld. 1 7200 3600 86400 300\n\
 unsigned.tld. 3600 IN NS ns.unsigned.tld.\n\
 ns.unsigned.tld. 3600 IN A 198.51.100.4\n\
@@ -580,6 +582,33 @@ impl World {
                 name = target;
                 continue;
             }
+            // 2b. DNAME at an ancestor inside this zone: the signed DNAME
+            // plus the synthesised (unsigned) CNAME, then on to the target.
+            {
+                let mut cur = name.clone();
+                let mut found: Option<(String, String)> = None;
+                while let Some(p) = parent_of(&cur) {
+                    if p == z.apex || !ends_with(&p, &z.apex) {
+                        break;
+                    }
+                    if let Some(recs) = z.rrsets.get(&(p.clone(), Rtype::DNAME)) {
+                        if let ZoneRecordData::Dname(d) = recs[0].data() {
+                            found = Some((p.clone(), lname(d.dname())));
+                        }
+                        break;
+                    }
+                    cur = p;
+                }
+                if let Some((owner, target)) = found {
+                    z.push_set(&mut r.answer, &owner, Rtype::DNAME, None);
+                    let prefix = &name[..name.len() - owner.len()];
+                    let new_name = format!("{}{}", prefix, target);
+                    let ttl = z.rrsets[&(owner.clone(), Rtype::DNAME)][0].ttl();
+                    r.answer.push(Record::new(qn.clone(), Class::IN, ttl, ZoneRecordData::Cname(domain::rdata::Cname::new(sname(&new_name)))));
+                    name = new_name;
+                    continue;
+                }
+            }
             // Insecure delegation: DS query at the cut answered by the parent.
             // 3. name exists -> NODATA
             if z.has_owner(&name) || z.exists(&name) {
@@ -719,6 +748,31 @@ impl World {
             cur = p;
         }
         None
+    }
+
+    /// A DNAME answer whose synthesised (unsigned) CNAME was redirected to
+    /// another, genuinely signed name: every signed piece verifies, but the
+    /// CNAME is not what the DNAME yields for the query name.
+    pub fn forged_dname_cname(&self, qname: &str, qtype: Rtype) -> Option<Resp> {
+        let truth = self.resolve(qname, qtype);
+        let has_dname = truth.answer.iter().any(|r| r.rtype() == Rtype::DNAME);
+        if !has_dname || truth.insecure {
+            return None;
+        }
+        let other = "www.zone.tld.";
+        let mut r = Resp::default();
+        for rec in &truth.answer {
+            match rec.data() {
+                ZoneRecordData::Dname(_) => r.answer.push(rec.clone()),
+                ZoneRecordData::Rrsig(s) if s.type_covered() == Rtype::DNAME => r.answer.push(rec.clone()),
+                ZoneRecordData::Cname(_) => r.answer.push(Record::new(rec.owner().clone(), rec.class(), rec.ttl(), ZoneRecordData::Cname(domain::rdata::Cname::new(sname(other))))),
+                _ => {}
+            }
+        }
+        let tail = self.resolve(other, qtype);
+        r.answer.extend(tail.answer);
+        r.authority = tail.authority;
+        Some(r)
     }
 
     /// Insert the stale RRSIG of one RRset of the response before its valid
